@@ -3,6 +3,7 @@ import ast
 import re
 
 from ..core import AnalysisError
+from .shared_py import inn
 from ..pyfront import unparse, path_conditions, norm_key, terminates
 from .. import miniev, excflow
 from . import shared_py as P
@@ -75,8 +76,8 @@ def checked_stores(ctx, L):
                 'C10a.checked-store', q, f.site(), 'assignment to an array / composite field must be refused', unparse(f.node))
     oc = gen.func('struct_generator.add_composite_property.setter', 0)
     s = ws(unparse(oc.node))
-    L.check('if new_value is True: self._fields[descriptor_field.name] = descriptor_field.type() elif new_value is None: '
-            'self._fields.pop(descriptor_field.name, None) else: raise ProphyError' in s, 'C10a.checked-store',
+    L.check(inn('if new_value is True: self._fields[descriptor_field.name] = descriptor_field.type() elif new_value is None: '
+            'self._fields.pop(descriptor_field.name, None) else: raise ProphyError', s), 'C10a.checked-store',
             'add_composite_property.setter#optional', oc.site(), 'an optional composite accepts only True (fresh instance) / None', s)
     # array mutators
     cont = ctx.py.mod('prophy.container')
@@ -269,11 +270,11 @@ def union_gating(ctx, L):
         L.check(ok, 'C10e.union-gating', q, f.site(), 'an arm accessor must first refuse when another arm is discriminated', ws(unparse(first)))
     s = gen.func('union_generator.add_union_discriminator_property.setter')
     src = ws(unparse(s.node))
-    L.check('if discriminator_name_or_value in (field.name, field.discriminator): if field != self._discriminated: '
-            'self._discriminated = field self._fields = {} return' in src, 'C10e.union-gating', 'discriminator.setter|reset', s.site(),
+    L.check(inn('if discriminator_name_or_value in (field.name, field.discriminator): if field != self._discriminated: '
+            'self._discriminated = field self._fields = {} return', src), 'C10e.union-gating', 'discriminator.setter|reset', s.site(),
             'switching the arm must reset _fields completely (a stale arm value - scalar or composite - must not survive a switch '
             'back and forth)', src)
-    L.check("raise ProphyError('unknown discriminator: {!r}'.format(discriminator_name_or_value))" in src, 'C10e.union-gating',
+    L.check(inn("raise ProphyError('unknown discriminator: {!r}'.format(discriminator_name_or_value))", src), 'C10e.union-gating',
             'discriminator.setter|unknown', s.site(), 'unknown discriminators are refused', src)
     comp = ctx.py.mod('prophy.composite')
     i = comp.func('union.__init__')
@@ -288,7 +289,7 @@ def pack_domain(ctx, L):
     sc = ctx.py.mod('prophy.scalar')
     ic = sc.func('int_decorator.decorator.check')
     s = ws(unparse(ic.node))
-    L.check('if not isinstance(value, (int, long)): raise ProphyError' in s and 'if not min_ <= value <= max_: raise ProphyError' in s
+    L.check(inn('if not isinstance(value, (int, long)): raise ProphyError', s) and inn('if not min_ <= value <= max_: raise ProphyError', s)
             and s.rstrip().endswith('return value'), 'C10f.pack-domain', 'int_decorator.check', ic.site(),
             'integers are accepted exactly within [min_, max_] (the struct code\'s domain, F4)', s)
     fc = sc.func('float_decorator.decorator.check')
@@ -306,12 +307,12 @@ def pack_domain(ctx, L):
             'encode() fail with struct.error instead of ProphyError', s)
     en = gen.func('enum_generator.add_attributes.check')
     s = ws(unparse(en.node))
-    L.check('value = name_to_int.get(value) if value is None: raise ProphyError' in s and 'if value not in int_to_name: raise ProphyError' in s
-            and "raise ProphyError('neither string nor int')" in s, 'C10f.pack-domain', 'enum check', en.site(),
+    L.check(inn('value = name_to_int.get(value) if value is None: raise ProphyError', s) and inn('if value not in int_to_name: raise ProphyError', s)
+            and inn("raise ProphyError('neither string nor int')", s), 'C10f.pack-domain', 'enum check', en.site(),
             'enums accept exactly their enumerator names and values', s)
     b = ctx.py.mod('prophy.composite').func('bytes_._bytes._check')
     s = ws(unparse(b.node))
-    L.check("if not isinstance(value, bytes): raise ProphyError('not a bytes')" in s and "if size and len(value) > size: raise ProphyError('too long')" in s,
+    L.check(inn("if not isinstance(value, bytes): raise ProphyError('not a bytes')", s) and inn("if size and len(value) > size: raise ProphyError('too long')", s),
             'C10f.pack-domain', '_bytes._check', b.site(), 'bytes fields accept only bytes no longer than their size', s)
 
 
@@ -321,7 +322,7 @@ def slice_components(ctx, L):
     for q in ('fixed_scalar_array.__setitem__', 'bound_scalar_array.__setitem__'):
         f = cont.func(q)
         s = ws(unparse(f.node))
-        uses_step = re.search(r'idx\.step|self\._values\[idx\] = .*map|indices\(', s) is not None and 'isinstance(idx, slice)' in s
+        uses_step = re.search(r'idx\.step|self\._values\[idx\] = .*map|indices\(', s) is not None and inn('isinstance(idx, slice)', s)
         L.check(uses_step, 'C10h.slice-components', q, f.site(),
                 'a slice index is forwarded as (idx.start, idx.stop) only: the step is dropped, so `a[::2] = [..]` replaces the '
                 'whole range instead of every second element (or being refused)', s)
